@@ -235,6 +235,53 @@ func runTopology(rec *mon.Recorder, c int) {
 			}
 		}
 	}
+	// A node that holds replicas leaves the cluster (removed from the membership; the catalogue still lists it; the
+	// nodes that asked it before hold client connections to it, now closed). A partition's size then comes from
+	// another replica, or the call fails: it never returns the sum of the remaining partitions.
+	if nodes >= 2 && rec.Violations() == 0 {
+		var gone *sim.Node
+		for _, n := range cl.Nodes[1:] {
+			for i := range pids {
+				if hosts(i, n.Id) {
+					gone = n
+				}
+			}
+		}
+		var rmErr error
+		if gone != nil && cl.Guard(20*time.Second, func() { rmErr = cl.Nodes[0].In.NodesManager.RemoveNode(gone.Id) }) && rmErr == nil {
+			var left []*sim.Node
+			for _, n := range cl.Nodes {
+				if n != gone {
+					left = append(left, n)
+				}
+			}
+			cl.WaitFor(10*time.Second, func() bool {
+				for _, n := range left {
+					if _, listed := n.In.ClusterConn.Nodes()[gone.Id]; listed {
+						return false
+					}
+				}
+				return true
+			})
+			cl.Crash(gone.Idx)
+			for s := 0; s < 8*len(left); s++ {
+				n := left[s%len(left)]
+				sctx, cancel := context.WithTimeout(ctx, 3*time.Second)
+				l, b, err := n.Dataset(dsId).SizeInfo(sctx)
+				cancel()
+				checked++
+				rec.Count("sizeinfo_calls_after_a_node_left", 1)
+				if err != nil {
+					rec.Count("sizeinfo_calls_after_a_node_left_failed_loudly", 1)
+					continue
+				}
+				if l != sumLen || b != sumBytes {
+					rec.Violation("sizeinfo:wrong-sum:after-a-node-left-the-cluster", fmt.Sprintf("%s node %d: node %d has left the cluster; SizeInfo=(%d,%d) without error, the partitions hold (%d,%d)", desc, n.Id, gone.Id, l, b, sumLen, sumBytes), replay)
+					break
+				}
+			}
+		}
+	}
 	rec.Count("sizeinfo_calls_checked", int64(checked))
 	rec.Case(mon.Digest(desc, want, fmt.Sprint(placement)), parts >= 2)
 	if rec.WantSample() {
